@@ -267,6 +267,105 @@ func posClass(path []string) string {
 	return s
 }
 
+// ---- documents with duplicate / case-variant keys ------------------------------------------------------
+//
+// Go's decoder matches object keys case-insensitively and lets the LAST duplicate win; a jsonb column keeps
+// keys that differ in case side by side and re-orders them (length, then bytes). What validation saw and
+// what is read back from shovel.integrations can therefore differ unless the checked value is what is stored.
+
+type ordMember struct {
+	K string
+	V any
+}
+
+// ordObj is a JSON object with explicit member order that may hold duplicate keys.
+type ordObj []ordMember
+
+func (o ordObj) MarshalJSON() ([]byte, error) {
+	var sb strings.Builder
+	sb.WriteByte('{')
+	for i, m := range o {
+		if i > 0 {
+			sb.WriteByte(',')
+		}
+		sb.WriteString(toJSON(m.K))
+		sb.WriteByte(':')
+		sb.WriteString(toJSON(m.V))
+	}
+	sb.WriteByte('}')
+	return []byte(sb.String()), nil
+}
+
+// dupVariant returns a copy of tree in which the object member that holds the leaf at path (the nearest
+// enclosing object key) occurs twice: once under its canonical key and once under a case variant of it,
+// one of them carrying the hostile value, the other the original one.
+//
+//	dup-1 bit 0: case variant (0 Capitalised, 1 UPPER)      bit 1: hostile under (0 canonical key, 1 variant key)
+//	      bit 2: order (0 hostile member first, 1 hostile member last)
+func dupVariant(tree any, path []string, hostile string, dup int) (any, string, bool) {
+	a := len(path) - 1
+	for a >= 0 && isIndex(path[a]) {
+		a--
+	}
+	if a < 0 {
+		return nil, "", false
+	}
+	tree = cloneTree(tree)
+	parent, ok := getAt(tree, path[:a])
+	pm, isMap := parent.(map[string]any)
+	if !ok || !isMap {
+		return nil, "", false
+	}
+	key := path[a]
+	bits := dup - 1
+	vkey := strings.ToUpper(key[:1]) + key[1:]
+	if bits&1 == 1 {
+		vkey = strings.ToUpper(key)
+	}
+	if vkey == key {
+		vkey = strings.ToLower(key)
+	}
+	if vkey == key {
+		return nil, "", false
+	}
+	orig := cloneTree(pm[key])
+	var bad any = hostile
+	if a < len(path)-1 {
+		bad = cloneTree(pm[key])
+		if !setAt(bad, path[a+1:], hostile) {
+			return nil, "", false
+		}
+	}
+	hm, gm := ordMember{key, bad}, ordMember{vkey, orig}
+	if bits&2 != 0 {
+		hm, gm = ordMember{vkey, bad}, ordMember{key, orig}
+	}
+	var o ordObj
+	keys := make([]string, 0, len(pm))
+	for k := range pm {
+		if k != key {
+			keys = append(keys, k)
+		}
+	}
+	sort.Strings(keys)
+	for _, k := range keys {
+		o = append(o, ordMember{k, pm[k]})
+	}
+	if bits&4 == 0 {
+		o = append(o, hm, gm)
+	} else {
+		o = append(o, gm, hm)
+	}
+	desc := fmt.Sprintf("member %q twice: hostile value under %q, original under %q, hostile %s", key, hm.K, gm.K, map[bool]string{true: "first", false: "last"}[bits&4 == 0])
+	if a == 0 {
+		return o, desc, true
+	}
+	if !setAt(tree, path[:a], o) {
+		return nil, "", false
+	}
+	return tree, desc, true
+}
+
 // ---- markers ---------------------------------------------------------------------------------------
 
 // The eight markers of the design plus '.', which is equally outside "letters, digits, underscore,
